@@ -119,11 +119,11 @@ impl Engine for C16 {
 
     fn info(&self) -> EngineInfo {
         EngineInfo {
-            rule: "one run = a generated subject (well typed program, or an ill typed / unparsable mutant of one, optionally importing 1-2 generated inline modules) whose observation = (rendered value, type text, Error::emit_string text) is taken (a) on a fresh VM, (b) on a VM that first executed a generated history of 0-20 unrelated items (expressions, loaded modules, ill typed programs, failing programs; disjoint names), (c) after the same history in a tape-chosen permutation, (d) on a second fresh VM of the same process, (e) on a child thread, (f) under a forced collection schedule, (g) after seeded heap padding (shifts every address), (h) in 1 of 6 runs in a freshly spawned process (new hasher keys, new address space). All observations must be byte-identical. Non-trivial = the history had at least 3 items or the subject produced diagnostics; distinct = distinct workload hash.",
+            rule: "one run = a generated subject (well typed program, or an ill typed / unparsable mutant of one, optionally importing 1-2 generated inline modules) whose observation = (rendered value, type text, Error::emit_string text) is taken (a) on a fresh VM, (b) on a VM that first executed a generated history of 0-20 unrelated items (expressions, loaded modules, ill typed programs, failing programs; disjoint names), (c) after the same history in a tape-chosen permutation, (d) on a second fresh VM of the same process, (e) on a child thread, (f) under a forced collection schedule, (g) after seeded heap padding (shifts every address), (i) twice on a VM built with a task spawner whose import tasks are polled by the simulator in tape-chosen order (two completion orders), (h) in 1 of 6 runs in a freshly spawned process (new hasher keys, new address space). All observations must be byte-identical. Non-trivial = the history had at least 3 items or the subject produced diagnostics; distinct = distinct workload hash.",
             real: vec!["symbol interning, type variable naming in rendered types and diagnostics, salsa memo tables, code map offsets, Fnv/ordered maps in the compiler, VM evaluation, Error::emit_string rendering"],
             stubbed: vec!["unrelated earlier work = generated history", "address perturbation = seeded padding allocations"],
             not_exercised: vec!["std.random, IO", "different machines / Rust versions"],
-            fault_kinds: vec!["history (items executed before the subject)", "permute", "second_vm", "child_thread", "gc (forced collection)", "padding", "fresh_process"],
+            fault_kinds: vec!["history (items executed before the subject)", "permute", "second_vm", "child_thread", "gc (forced collection)", "padding", "fresh_process", "task_order (import tasks of a spawner VM polled in tape order)", "task (which pollable task runs next)"],
             assumptions: vec![
                 "variations (b)-(g) are fully controlled by the decision tape and replay exactly; a difference seen only across processes (h) can only be raised if two real outputs differ, but depends on process-level randomness (hasher keys, ASLR) that the simulator cannot seed: its replay is re-checked over 8 fresh processes",
             ],
@@ -144,7 +144,7 @@ impl Engine for C16 {
                 g.any_ty(2)
             };
             let mut src = gen::program(rng, &ty, 40, 4);
-            if rng.chance(1, 6) {
+            if rng.chance(1, 3) {
                 src = mutate(rng, &src);
             }
             modules.push(json!(src));
@@ -272,6 +272,34 @@ impl Engine for C16 {
             let obs = observe(&vm, subject);
             drop(pad);
             check("shifted heap addresses", obs)?;
+        }
+        // (i) a VM whose import tasks run on a task executor, polled in tape-chosen order (twice:
+        // two different completion orders)
+        for round in 0..2 {
+            run::count("task_order", 1);
+            run::set_context("vm with task spawner");
+            let queue = crate::exec::TaskQueue::default();
+            let pick = |n: usize| run::choose("task", n as u32) as usize;
+            let fut = gluon::VmBuilder::new().verif_build_with_spawner(Some(Box::new(queue.clone())));
+            let vm = match crate::exec::drive_with_tasks(fut, &queue, 5_000_000, pick) {
+                crate::exec::Outcome::Ready(vm, _) => vm,
+                _ => return Err(Violation::new("harness", "vm with task spawner did not build")),
+            };
+            vm.get_database_mut().set_implicit_prelude(prelude);
+            externs::install(&vm);
+            match crate::exec::drive_with_tasks(vm.load_script_async("simtypes", gen::TYPES_MODULE), &queue, 5_000_000, pick) {
+                crate::exec::Outcome::Ready(Ok(()), _) => {}
+                _ => return Err(Violation::new("harness", "simtypes did not load on the task executor")),
+            }
+            load_subject_modules(&vm, w);
+            let fut = vm.run_expr_async::<OpaqueValue<RootedThread, Hole>>("subject", subject);
+            let obs = match crate::exec::drive_with_tasks(fut, &queue, 5_000_000, pick) {
+                crate::exec::Outcome::Ready(Ok((v, t)), _) => format!("OK {}\nTYPE {}", render::render(v.get_variant()), t),
+                crate::exec::Outcome::Ready(Err(e), _) => format!("ERR {}", e.emit_string().unwrap_or_else(|_| e.to_string())),
+                crate::exec::Outcome::Stuck(p) => format!("HANG after {} polls", p),
+                _ => "POLL-CAP".to_string(),
+            };
+            check(if round == 0 { "import tasks polled in tape order (1)" } else { "import tasks polled in tape order (2)" }, obs)?;
         }
         // (h) fresh process
         if w["fresh_process"].as_bool().unwrap_or(false) {
